@@ -90,3 +90,16 @@ Proof.
     assert (E : (x = 1 \/ x = 2 \/ x = 3)%Z) by lia. destruct E as [->|[->| ->]]; split; vm_compute; intro H; discriminate H.
 Qed.
 Print Assumptions C09_corner_needs_sign_constant_formula.
+
+(* the leaf oracle is part of the trusted base for a reason (finding F15): with the answers sympy 1.14 really gives for
+   f(s0, s1) = -11/2 + 12/(s0*s1) on [4,5] x [4,7] - "cannot be negative", "may be positive" - the table returns AlwaysGeq,
+   which is false at (4, 4) *)
+Theorem C09_unsound_leaf_refuted :
+  let f (p : Z * Z) := - (11 # 2) + 12 / (inject_Z (fst p) * inject_Z (snd p)) in
+  let inbox (p : Z * Z) := (4 <= fst p <= 5 /\ 4 <= snd p <= 7)%Z in
+  table false true = AlwaysGeq /\ inbox (4, 4)%Z /\ ~ holds (Z * Z) inbox (table false true) f.
+Proof.
+  cbn zeta. split; [reflexivity|]. split; [cbn; lia|]. cbn [table holds]. intro H. specialize (H (4, 4)%Z). cbn [fst snd] in H.
+  assert (4 <= 4 <= 5 /\ 4 <= 4 <= 7)%Z as I by lia. specialize (H I). vm_compute in H. apply H. reflexivity.
+Qed.
+Print Assumptions C09_unsound_leaf_refuted.
